@@ -49,10 +49,11 @@ struct GateFut { gate: usize, op: usize, obj: usize, tok: usize, done: bool }
 impl std::future::Future for GateFut {
     type Output = usize;
     fn poll(mut self: std::pin::Pin<&mut Self>, cx: &mut std::task::Context<'_>) -> std::task::Poll<usize> {
+        if self.gate == 9996 && !YIELDED[self.op].load(SeqCst) { cx.waker().wake_by_ref(); vsched::harness_event("__gate_poll_yield", |_| true); YIELDED[self.op].store(true, SeqCst); return std::task::Poll::Pending; }
         if self.gate == 9998 { cx.waker().wake_by_ref(); }
         if self.gate == 9997 || self.gate == 9998 { panic!("scenario future panics"); }
         vsched::harness_event("__gate_poll", |_| true);
-        if self.gate == 9999 || GATE[self.gate].load(SeqCst) {
+        if self.gate == 9999 || self.gate == 9996 || GATE[self.gate].load(SeqCst) {
             if OCC[self.obj].load(SeqCst) > 0 { OCC[self.obj].fetch_sub(1, SeqCst); }
             END[self.op].store(now(), SeqCst); self.done = true;
             std::task::Poll::Ready(self.tok)
@@ -78,6 +79,7 @@ impl std::future::Future for DGateFut { type Output = usize; fn poll(mut self: s
 struct TaskWake(usize);
 impl futures::task::ArcWake for TaskWake { fn wake_by_ref(a: &Arc<Self>) { vsched::harness_event("__task_wake", |_| true); WOKEN[a.0].store(true, SeqCst); } }
 fn task_wait(k: usize) { vsched::harness_event("__task_wait", |_| WOKEN[k].load(SeqCst)); WOKEN[k].store(false, SeqCst); }
+static YIELDED: [AtomicBool; N] = [const { AtomicBool::new(false) }; N];
 static GATE_AT: [AtomicUsize; N] = [const { AtomicUsize::new(usize::MAX) }; N];
 static GATE_WOKE: [AtomicBool; N] = [const { AtomicBool::new(false) }; N];
 fn open_gate_wake(k: usize) { vsched::harness_event("__gate_open", |_| true); GATE[k].store(true, SeqCst); GATE_AT[k].store(now(), SeqCst); let w = GATE_WAKER[k].lock().unwrap().take(); if let Some(w) = w { GATE_WOKE[k].store(true, SeqCst); w.wake(); } }
@@ -143,7 +145,7 @@ fn op_done(op: usize, v: usize) { RES[op].store(v, SeqCst); RET[op].store(now(),
             elif kind == 'open_gate': body.append('open_gate_wake(%d);' % op[1])
             elif kind in ('future_desync', 'future_sync'):
                 q = op[1]; b = op[2] if len(op) > 2 else {}
-                fk = b.get('fut', 'ready'); gate = fk[1] if isinstance(fk, (list, tuple)) else {'panic': 9997, 'wake_panic': 9998}.get(fk, 9999)
+                fk = b.get('fut', 'ready'); gate = fk[1] if isinstance(fk, (list, tuple)) else {'panic': 9997, 'wake_panic': 9998, 'yield': 9996}.get(fk, 9999)
                 var = b.get('as', 'f%d' % opid); tok = 40 + opid
                 futvars[var] = (opid, kind)
                 body.append('op_inv(%d);' % opid)
